@@ -5,7 +5,7 @@ CONSTANTS MaxRows = 5
           SpecCodes = {0, 1, 2, 3}
           SplitFanIns = {8}
           Singles = {}
-          Fetches = {99, 0, 1, 3, 7}
+          Fetches = {99, 0, 1, 3}
           NoFetch = 99
           AllowEmpty = FALSE
           EmitMod = 7
